@@ -36,8 +36,9 @@ MANIFEST = {
     "ChunkEncoder.decode; the monitor accepts only a correctly shaped/typed array or "
     "InvalidFormatError, bounds the running time, and cross-checks acceptance against an "
     "independent validity oracle so that valid data is never rejected.  Exploration.",
-    "level_note": "Trusted: refs/cseg_spec.py and Pillow as validity oracles.  Not "
-    "coverage-guided (atheris is available but was not needed to reach the known defects).",
+    "level_note": "Trusted: refs/cseg_spec.py and Pillow as validity oracles.  The thorough "
+    "tier adds coverage-guided mutation (atheris/libFuzzer, 8 targets x 60 s) with the same "
+    "exception-class / shape monitor.",
     "technique": "runtime monitoring under mutation fuzzing: exception-class / shape / dtype "
     "monitor at the decode boundary plus an independent validity oracle and a watchdog",
     "design_ref": "DESIGN.md section 2, C10",
@@ -71,6 +72,14 @@ def gen_cases(tier, seed):
                       "nlab": rnd.choice([1, 2, 3, 5, 17, 300]),
                       "nmut": 90 if tier == "quick" else 250,
                       "vseed": rnd.randrange(2 ** 32)})
+    if tier == "thorough":
+        # coverage-guided tier (atheris / libFuzzer), one process per target
+        for target in ("cseg:uint32:1:5,4,3:2,2,2", "cseg:uint64:2:4,3,5:4,2,8",
+                       "cseg:uint64:1:9,7,3:8,8,8", "cseg:uint32:3:2,2,2:1,2,3",
+                       "jpeg:uint8:1:6,5,2", "jpeg:uint8:3:4,4,3", "raw:uint16:2:3,2,2",
+                       "cseg:uint64:1:1,1,1:8,8,8"):
+            cases.append({"enc": "atheris", "target": target, "seconds": 60,
+                          "fseed": rnd.randrange(2 ** 31)})
     return cases
 
 
@@ -243,7 +252,94 @@ def _jpeg_extra(case, rnd, np):
     return out
 
 
+def run_atheris(case):
+    """Run the libFuzzer harness harness/fuzz_c10.py in a subprocess; crashes are replayed
+    through the same monitor as the structured tier."""
+    import os
+    import re
+    import shutil
+    import subprocess
+    import sys
+    import tempfile
+
+    import numpy as np
+    from neuroglancer_scripts import chunk_encoding as ce
+    verif = os.path.dirname(os.path.dirname(os.path.dirname(os.path.abspath(__file__))))
+    deps = os.path.join(verif, ".deps-atheris")
+    obs = {"atheris_targets": 1, "atheris_executions": 0, "atheris_available": 0,
+           "atheris_coverage_edges": 0}
+    if not os.path.isdir(os.path.join(deps, "atheris")):
+        subprocess.run([sys.executable, "-m", "pip", "install", "-q", "--no-index",
+                        "--find-links", "/opt/veriftools/wheels", "--target", deps,
+                        "atheris"], capture_output=True, timeout=600)
+    if not os.path.isdir(os.path.join(deps, "atheris")):
+        obs["atheris_error"] = ["atheris could not be installed from the offline wheelhouse"]
+        return {"violations": [], "obs": obs}
+    top = tempfile.mkdtemp(prefix="c10f-")
+    v = []
+    try:
+        corpus, art = os.path.join(top, "corpus"), os.path.join(top, "artifacts")
+        os.makedirs(corpus)
+        os.makedirs(art)
+        parts = case["target"].split(":")
+        enc_name, dt, nch = parts[0], parts[1], int(parts[2])
+        size = tuple(int(x) for x in parts[3].split(","))
+        shape = (nch, size[2], size[1], size[0])
+        if enc_name == "raw":
+            enc = ce.RawChunkEncoder(dt, nch)
+        elif enc_name == "cseg":
+            enc = ce.CompressedSegmentationEncoder(dt, nch,
+                                                   [int(x) for x in parts[4].split(",")])
+        else:
+            enc = ce.JpegChunkEncoder("uint8", nch)
+        g = np.random.default_rng(case["fseed"])
+        for i, nlab in enumerate((1, 2, 3, 17, 300)):
+            arr = g.integers(0, nlab, size=shape).astype(dt)
+            with open(os.path.join(corpus, f"seed{i}"), "wb") as f:
+                f.write(bytes(enc.encode(arr)))
+        env = dict(os.environ)
+        env["PYTHONPATH"] = deps + os.pathsep + env.get("PYTHONPATH", "")
+        p = subprocess.run([sys.executable, "-W", "ignore", "-m", "harness.fuzz_c10",
+                            case["target"], corpus, art,
+                            f"-max_total_time={case['seconds']}", f"-seed={case['fseed']}"],
+                           capture_output=True, text=True, timeout=case["seconds"] + 240,
+                           env=env, cwd=verif)
+        m = re.search(r"stat::number_of_executed_units:\s*(\d+)", p.stderr)
+        if m:
+            obs["atheris_executions"] = int(m.group(1))
+            obs["atheris_available"] = 1
+        cov = re.findall(r"cov: (\d+)", p.stderr)
+        if cov:
+            obs["atheris_coverage_edges"] = int(cov[-1])
+        for name in sorted(os.listdir(art)):
+            with open(os.path.join(art, name), "rb") as f:
+                data = f.read()
+            st, res = _decode_guarded(enc, data, size, 120)
+            bad = None
+            if st == "exc":
+                bad = res
+            elif st == "timeout":
+                bad = "no answer within 120 s"
+            elif st == "ok" and (res.shape != shape or res.dtype != np.dtype(dt)):
+                bad = f"returned {res.shape} {res.dtype}"
+            if bad:
+                v.append({"kind": "undocumented-exception" if st == "exc" else
+                          "decoder-misbehaves", "hex": data[:400].hex(),
+                          "detail": f"coverage-guided fuzzing of {case['target']}: "
+                          f"{name} ({len(data)} bytes): {bad}"})
+        if not m and not v:
+            obs["atheris_error"] = [p.stderr[-300:]]
+    finally:
+        shutil.rmtree(top, ignore_errors=True)
+    return {"violations": v[:5], "obs": obs, "evals": max(1, obs["atheris_executions"]),
+            "distinct_disjoint": obs["atheris_executions"],
+            "sample": {"atheris_target": case["target"],
+                       "executions": obs["atheris_executions"]}}
+
+
 def run_case(case):
+    if case.get("enc") == "atheris":
+        return run_atheris(case)
     import numpy as np
     from neuroglancer_scripts import chunk_encoding as ce
     rnd = random.Random(case["vseed"])
@@ -380,4 +476,6 @@ def gates(obs, tier):
                                        if k.startswith("jpegfield:")) > 500,
         "truncations_applied": mk.get("truncate", 0) > 1000,
         "validity_oracle_positive": obs.get("oracle_valid", 0) > 200,
+        **({"coverage_guided_tier_ran": obs.get("atheris_available", 0) >= 6
+            and obs.get("atheris_executions", 0) > 100000} if tier == "thorough" else {}),
     }
